@@ -19,6 +19,7 @@ LEVEL_TEXT = (
     "in the finder: unique over the concatenation of both arrays along axis 0 with counts, groups kept iff count >= 2 "
     "(comparator evaluated on the order classes of count vs 2), positions are rows of new_points equal on all "
     "coordinates. Decides these clauses for all histories and draws; numpy.unique's own semantics are trusted."
+    ' (D8) every concrete sample_batch returns storage allocated during the call (not a view of a work array the sampler keeps): sample() substitutes repeats in place, so an aliased redraw would overwrite points that were not repeats.'
 )
 TECHNIQUE = "normal forms + CFG dominance/control dependence + reaching definitions"
 
